@@ -171,6 +171,9 @@ def run_shards(pid, spec, exes, tier, deadline, seed):
     return results
 
 
+_KEYFILES = {}
+
+
 def match_known(known, pid, v):
     for k in known:
         if k.get("property") != pid or k.get("status") != "known":
@@ -182,6 +185,14 @@ def match_known(known, pid, v):
             continue
         if "key_regex" in m and not re.search(m["key_regex"], v["key"]):
             continue
+        if "key_file" in m:
+            ks = _KEYFILES.get(m["key_file"])
+            if ks is None:
+                with open(os.path.join(ROOT, m["key_file"])) as f:
+                    ks = set(l.rstrip("\n") for l in f if l.strip() and not l.startswith("#"))
+                _KEYFILES[m["key_file"]] = ks
+            if v["key"] not in ks:
+                continue
         if "detail_regex" in m and not re.search(m["detail_regex"], v["detail"]):
             continue
         return k
